@@ -240,7 +240,7 @@ def gen_case(rng, family=None, noise_free=None, form=None, want_range=None, degr
     return case
 
 
-SCALES = (1e-6, 1e-3, 1.0, 1e3, 1e6)
+SCALES = (1e-12, 1e-6, 1e-3, 1.0, 1e3, 1e6, 1e12)
 
 
 def gen_centred(rng, units=None):
